@@ -187,6 +187,24 @@ class Cookie:
         return f"<Cookie {self.name}: {self.value}>"
 
 
+class RawCookie:
+    """
+    A complete `Set-Cookie` header value that was produced elsewhere,
+    e.g. by an application wrapped in a middleware.
+    """
+
+    __slots__ = ("line",)
+
+    def __init__(self, line: str) -> None:
+        self.line = line
+
+    def __str__(self) -> str:
+        return self.line
+
+    def __bytes__(self) -> bytes:
+        return self.line.encode("latin-1")
+
+
 class URL:
     __slots__ = ("_url", "_components")
 
